@@ -6,7 +6,9 @@ Part A (E2): breadth-first search over operation histories on the real `RouterIn
         form of both indexes, judged in every state against `bv.refs.routeref.RouteRef`
         (one dict (snet, dnet) -> router, newest wins) and the index invariants I1..I4.
 Part B (E2, through the wire): the same histories at small depth as real frames -- I-Am-Router-To-Network,
-        routed traffic with SADR, Network-Number-Is -- delivered over controlled vlan networks into a real
+        routed traffic with SADR (an application layer NPDU, and network layer messages that travel through routers:
+        Who-Is-Router-To-Network passed on by a router, Reject-Message-To-Network, Initialize-Routing-Table-Ack, a
+        proprietary message), Network-Number-Is -- delivered over controlled vlan networks into a real
         two-port node (NetworkServiceAccessPoint + NetworkServiceElement), deletions through the node's
         `delete_router_references`; then one probe packet per destination network is sent from the
         application side: its next-hop MAC / LAN must be what the reference names, and if the reference knows
@@ -52,7 +54,14 @@ RULE = ("part A: BFS over all histories of the alphabet {learn(port, router, dne
         "because the cache only iterates them for order-independent updates; RouterInfo.snet is left out of the state only "
         "while the source of netservice.py never reads it (checked at import, otherwise it is kept). "
         "part B: BFS over histories of real frames / node API calls into a real two-port NSAP node: the same alphabet plus "
-        "learning from the SADR of routed traffic plus send(dnet) = the application hands the node a packet for a network the "
+        "learning from the SADR of routed traffic -- sadr(port, router, source network, kind of frame): the kind is part of the "
+        "operation, so every history exists with every kind in every position: an application layer NPDU directed at the node, "
+        "a Who-Is-Router-To-Network of a remote station passed on by the router as a local broadcast, a Reject-Message-To-Network "
+        "directed at the node (these two network layer messages talk about network 77, which nobody announces), and in the "
+        "universes searched to closure also an Initialize-Routing-Table-Ack and a proprietary network message (type 0x80) -- which "
+        "kinds a universe uses is stated in BOUNDS (quick's depth-bounded universe: the first two); one "
+        "reference effect for all kinds (source network now via that router, newest wins, nothing held for it any more) and no "
+        "kind is part of the state -- plus send(dnet) = the application hands the node a packet for a network the "
         "reference knows no path to (the node has to hold it and ask Who-Is-Router-To-Network), at most `held` packets held at a "
         "time, interleaved with everything else in every order; state = the same cache form + (adapter net, configured flag) in "
         "adapter-dict order + packets held per destination network (node and reference); after every operation the frames the "
@@ -74,6 +83,11 @@ ASSUMPTIONS = [
     "traffic, whichever comes first -- nothing is held for that network: the held packets are on the wire towards the router, "
     "each once.  Packets are never required to be dropped; the node's forwarding of other stations' routed traffic is not driven",
     "I-Am-Router-To-Network lists are non-empty and never name a directly attached network; SADR never names one either",
+    "'routed traffic revealing source networks' is every frame that arrives with SNET/SADR, whatever it carries: an application "
+    "layer NPDU or a network layer message that travels through routers (clause 6.2.2: the router that passes a message on "
+    "stamps the originator's network); what the message itself asks for (a router to network 77, a rejection concerning 77, an "
+    "empty routing table, vendor data) must not touch the knowledge; such frames carry no DADR (last hop), so the node's own "
+    "forwarding is not driven except for the Who-Is-Router-To-Network it passes on to its other port, which is not judged",
     "Network-Number-Is is sent as a local broadcast with the 'learned' flag (0); a port with a configured number is never "
     "asked to renumber",
     "the 'random sequences of length 300' of the quantifier are replaced by closure (frontier emptied) of smaller universes",
@@ -83,13 +97,19 @@ ASSUMPTIONS = [
 BOUNDS = {
     "quick": "part A: 2 ports x 3 routers x 4 dnets, sets of <=2 dnets, pool of 3 network numbers, depth<=4; "
              "2 ports (one number unknown) x 2 routers x 3 dnets, every subset, to closure (frontier emptied); "
-             "part B: 3 node variants x (3 routers x 3 dnets, sets of <=2, <=2 packets held) depth<=3, 4 station probes per state; "
-             "node with both numbers configured x (2 routers x 2 dnets, every subset, <=2 packets held) to closure, 3 probes per state",
+             "part B: 3 node variants x (3 routers x 3 dnets, sets of <=2, <=2 packets held, source networks revealed by 2 kinds of "
+             "frame: application NPDU / routed Who-Is-Router-To-Network) depth<=3, 4 station probes per state; "
+             "node with both numbers configured x (2 routers x 2 dnets, every subset, <=2 packets held, source networks revealed by "
+             "5 kinds of frame: + Reject-Message-To-Network, Initialize-Routing-Table-Ack, proprietary message) to closure, "
+             "3 probes per state",
     "thorough": "part A: 2 ports x 3 routers x 4 dnets, every non-empty subset, depth<=5; 2 ports x 3 routers x 3 dnets "
                 "to closure; 2 ports (one unknown) x 2 routers x 3 dnets to closure; "
-                "part B: 3 node variants x (3 routers x 4 dnets, every subset, <=2 packets held) depth<=3 with station + broadcast "
-                "probes (10 per state); 3 node variants x (2 routers x 2 dnets, every subset, <=2 packets held) to closure with 3 probes "
-                "per state; 3 node variants x (2 routers x 3 dnets, every subset, no held packets) to closure with 4 probes per state",
+                "part B: 3 node variants x (3 routers x 4 dnets, every subset, <=2 packets held, source networks revealed by 3 kinds "
+                "of frame: application NPDU / routed Who-Is-Router-To-Network / routed Reject-Message-To-Network) depth<=3 with "
+                "station + broadcast probes (10 per state); 3 node variants x (2 routers x 2 dnets, every subset, <=2 packets held, "
+                "5 kinds of frame: + Initialize-Routing-Table-Ack, proprietary message) to closure with 3 probes "
+                "per state; 3 node variants x (2 routers x 3 dnets, every subset, no held packets, 3 kinds of frame) to closure with "
+                "4 probes per state",
 }
 
 # RouterInfo.snet is written by the constructor; if nothing else in netservice.py mentions `.snet` it cannot
@@ -97,6 +117,16 @@ BOUNDS = {
 SNET_IS_READ = len(re.findall(r"\.snet\b", inspect.getsource(netservice))) > 1
 
 EXTRA_DNET = 99          # a destination nobody ever announces (always exercises the Who-Is-Router path)
+ASKED_DNET = 77          # what routed network layer messages of the history talk about: never announced, never probed
+REMOTE_MAC = b"\x51"     # the station behind the router whose traffic reveals its network
+# "routed traffic revealing a source network": the kinds of frame that reach the node through a router with the
+# SNET/SADR of a remote originator.  One reference effect for all of them: the source network is learned via the router
+# the frame came through (newest wins) and what was held for it goes out.
+SADR_TWO = ("apdu",                       # an application layer NPDU directed at the node
+            "who-is-router")              # Who-Is-Router-To-Network of a remote station passed on by the router (local broadcast)
+SADR_CORE = SADR_TWO + ("reject-message",)             # Reject-Message-To-Network of a router further away, directed at the node
+SADR_ALL = SADR_CORE + ("init-routing-table-ack",      # Initialize-Routing-Table-Ack (empty table), directed at the node
+                        "proprietary-message")         # a vendor's network layer message (type 0x80), directed at the node
 PROBE_MAC = b"\x63"
 SEND_TAG0 = 0x80         # application packets of the history carry the tag 0x80 + position, probes 1..0x7f
 APP_HEAD = b"\x10\x08\x09"
@@ -107,13 +137,14 @@ HELD_ONLY = ("held-traffic-not-released", "probe:later-traffic-queued-behind-hel
 
 # ----------------------------------------------------------------------------- universes / alphabets
 
-def universe(name, start, pool, n_routers, dnets, max_set, seed=0, depth=5, held=0, variants=None):
+def universe(name, start, pool, n_routers, dnets, max_set, seed=0, depth=5, held=0, variants=None, sadr=SADR_CORE):
     base = 0x0A + 0x10 * (seed % 4)
     return {"name": name, "start": list(start), "pool": list(pool),
             "routers": [bytes([base + i]).hex() for i in range(n_routers)],
             "dnets": list(dnets), "max_set": max_set, "descending": bool(seed % 2), "depth": depth,
             "held": held,        # part B: at most this many application packets of the history held by the node at a time
-            "variants": None if variants is None else list(variants)}     # part B: node variants (None = all)
+            "variants": None if variants is None else list(variants),     # part B: node variants (None = all)
+            "sadr": list(sadr)}  # part B: the kinds of routed frame that reveal a source network
 
 
 def subsets(items, max_size=None):
@@ -133,10 +164,11 @@ def enabled_ops(u, routes, nets, wire=False, can_renumber=None):
             for ds in subsets(u["dnets"], u["max_set"]):
                 ops.append(("learn", p, r, ds))
     if wire:
-        for p in ports:
-            for r in u["routers"]:
-                for d in u["dnets"]:
-                    ops.append(("sadr", p, r, d))
+        for flavour in u.get("sadr", ("apdu",)):
+            for p in ports:
+                for r in u["routers"]:
+                    for d in u["dnets"]:
+                        ops.append(("sadr", p, r, d, flavour))
     for p in ports:
         for r in u["routers"]:
             ops.append(("forget_router", p, r))
@@ -162,6 +194,10 @@ def enabled_ops(u, routes, nets, wire=False, can_renumber=None):
     return ops
 
 
+def sadr_flavour(op):
+    return op[4] if len(op) > 4 else "apdu"       # recorded cases from before the flavours existed are 4-tuples
+
+
 def op_class(op, routes, nets):
     """Coarse class of an operation in a state: part of the failure signature and of the outcome labels."""
     kind = op[0]
@@ -171,7 +207,8 @@ def op_class(op, routes, nets):
     if kind in ("learn", "sadr"):
         ds = op[3] if kind == "learn" else (op[3],)
         owners = {routes.lookup(snet, d) for d in ds} - {None}
-        name = "learn" if kind == "learn" else "learn-from-sadr"
+        # one class for all network layer messages: which message it was is in the history (and in the outcome labels)
+        name = "learn" if kind == "learn" else "learn-from-sadr" if sadr_flavour(op) == "apdu" else "learn-from-sadr-of-network-message"
         if owners - {op[2]}:
             return name + "-displacing"
         return name
@@ -600,9 +637,23 @@ def b_apply(ctx, real_nets, op, u):
     if kind == "learn":
         b_send(ctx, p, op[2], routeref.i_am_router_to_network(dlist(u, op[3])), LocalBroadcast())
     elif kind == "sadr":
-        # a station on network op[3] talks to the node through router op[2]: last hop carries SADR, no DADR
-        octets = routeref.build_npdu(b"\x10\x08", snet=op[3], sadr=b"\x51")
-        b_send(ctx, p, op[2], octets, LocalStation(NODE_MACS[p]))
+        # a station (or router) on network op[3] is heard through router op[2]: the last hop carries SADR and no DADR
+        flavour = sadr_flavour(op)
+        me = LocalStation(NODE_MACS[p])
+        if flavour == "apdu":
+            b_send(ctx, p, op[2], routeref.build_npdu(b"\x10\x08", snet=op[3], sadr=REMOTE_MAC), me)
+        elif flavour == "who-is-router":
+            # the router does not know the network asked for and passes the question on to its other LANs
+            b_send(ctx, p, op[2], routeref.who_is_router_to_network(ASKED_DNET, snet=op[3], sadr=REMOTE_MAC), LocalBroadcast())
+        elif flavour == "reject-message":
+            # reason 1: "not directly connected to DNET and cannot find a router to it"
+            b_send(ctx, p, op[2], routeref.reject_message_to_network(1, ASKED_DNET, snet=op[3], sadr=REMOTE_MAC), me)
+        elif flavour == "init-routing-table-ack":
+            b_send(ctx, p, op[2], routeref.initialize_routing_table_ack((), snet=op[3], sadr=REMOTE_MAC), me)
+        elif flavour == "proprietary-message":
+            b_send(ctx, p, op[2], routeref.proprietary_message(0x80, 0x0104, b"\x00", snet=op[3], sadr=REMOTE_MAC), me)
+        else:
+            raise ValueError(flavour)
     elif kind == "forget_router":
         ctx.nsap.delete_router_references(real_nets[p], addr(op[2]))
     elif kind == "forget_dnets":
@@ -892,6 +943,8 @@ def b_expand(item, deadline):
                     acc.outcome("B:send:%s" % "+".join(e[1] for e in obs if e[0] == "traffic"))
                 else:
                     acc.outcome("B:%s:%s" % (cls, "changes" if n2.routes.table != node.routes.table or op[0] == "renumber" else "no-effect"))
+                    if op[0] == "sadr":
+                        acc.outcome("B:routed frame with SADR (%s) judged" % sadr_flavour(op))
                     if ("traffic", "releases-held-traffic") in obs:
                         acc.outcome("B:%s:releases-held-traffic" % cls)
                 for entry in obs:
@@ -928,15 +981,15 @@ def plans(tier, seed):
         a = [universe("2p-3r-4d-sets<=2", (1, 2), (1, 2, 3), 3, (10, 11, 12, 13), 2, seed, depth=4),
              universe("2p(1 unknown)-2r-3d-closure", (1, None), (1, 2, 3), 2, (10, 11, 12), None, seed, depth=40)]
         b = [(universe("wire-2r-2d-held<=2-closure", (), (1, 2, 3), 2, (10, 11), None, seed, depth=40, held=2,
-                       variants=("both-configured",)), False),
-             (universe("wire-3r-3d-sets<=2", (), (1, 2, 3), 3, (10, 11, 12), 2, seed, depth=3, held=2), False)]
+                       variants=("both-configured",), sadr=SADR_ALL), False),
+             (universe("wire-3r-3d-sets<=2", (), (1, 2, 3), 3, (10, 11, 12), 2, seed, depth=3, held=2, sadr=SADR_TWO), False)]
     else:
         a = [universe("2p(1 unknown)-2r-3d-closure", (1, None), (1, 2, 3), 2, (10, 11, 12), None, seed, depth=60),
              universe("2p-3r-3d-closure", (1, 2), (1, 2, 3), 3, (10, 11, 12), None, seed, depth=60),
              universe("2p-3r-4d-all-subsets", (1, 2), (1, 2, 3), 3, (10, 11, 12, 13), None, seed, depth=5)]
         b = [(universe("wire-3r-4d-all-subsets", (), (1, 2, 3), 3, (10, 11, 12, 13), None, seed, depth=3, held=2), True),
-             (universe("wire-2r-2d-held<=2-closure", (), (1, 2, 3), 2, (10, 11), None, seed, depth=60, held=2), False),
-             (universe("wire-2r-3d-closure", (), (1, 2, 3), 2, (10, 11, 12), None, seed, depth=60, held=0), False)]
+             (universe("wire-2r-2d-held<=2-closure", (), (1, 2, 3), 2, (10, 11), None, seed, depth=60, held=2, sadr=SADR_ALL), False),
+             (universe("wire-2r-3d-closure", (), (1, 2, 3), 2, (10, 11, 12), None, seed, depth=60, held=0, sadr=SADR_CORE), False)]
     return a, b
 
 
